@@ -161,7 +161,7 @@ impl<W: WorldSpec> Engine<W> {
         // documented overflow panics
         let overflow_expected = !self.cfg.wrapping
             && match exp.target {
-                Some(t) if exp.acc != Tri::No => (t as u32) == u32::MAX || self.ms[wid].archs[ta].ver >= u32::MAX as u64,
+                Some(t) if exp.acc != Tri::No => near_max(t as u32 as u64) || near_max(self.ms[wid].archs[ta].ver),
                 _ => false,
             };
         let dynamic_world = lvl == Lvl::World && !typed;
